@@ -18,4 +18,7 @@ CASES = [
          old="        if retry_count is None:\n            gen = infinite()\n        else:\n            gen = range(retry_count)", new="        gen = range(retry_count) if retry_count else infinite()")]),
     dict(expect="silent", desc="retry: None test written positively", edits=[dict(file="reactivex/operators/_retry.py",
          old="        if retry_count is None:\n            gen = infinite()\n        else:\n            gen = range(retry_count)", new="        if retry_count is not None:\n            gen = range(retry_count)\n        else:\n            gen = infinite()")]),
+    dict(expect="silent", desc="catch_with_iterable: error presence tested with `is None` first", edits=[dict(file="reactivex/observable/catch.py",
+         old="                if last_exception is not None:\n                    observer.on_error(last_exception)\n                else:\n                    observer.on_completed()",
+         new="                if last_exception is None:\n                    observer.on_completed()\n                else:\n                    observer.on_error(last_exception)")]),
 ]
